@@ -81,9 +81,17 @@ type Findings struct {
 }
 
 var (
-	verifDir = "/verif"
-	repoDir  = "/repo"
+	verifDir    = "/verif"
+	repoDir     = "/repo"
+	scratchDirs []string
 )
+
+func exit(code int) {
+	for _, d := range scratchDirs {
+		os.RemoveAll(d)
+	}
+	os.Exit(code)
+}
 
 func envs() []string {
 	return append(os.Environ(), "GOFLAGS=-mod=mod", "GOPROXY=off", "GOSUMDB=off", "GOTOOLCHAIN=local")
@@ -123,8 +131,11 @@ func load(kind string) (*loaded, error) {
 		ov[v] = src
 		real[v] = f
 	}
-	tmp := filepath.Join(verifDir, "bin", "gen-"+kind)
+	// per-process scratch directory (generated runtime files, native test binary), removed on exit, so that
+	// concurrent checks do not overwrite each other's files
+	tmp := filepath.Join(verifDir, "bin", fmt.Sprintf("gen-%s-%d", kind, os.Getpid()))
 	os.MkdirAll(tmp, 0o755)
+	scratchDirs = append(scratchDirs, tmp)
 	for _, t := range []string{"rt.go", "rt_test.go"} {
 		src, err := os.ReadFile(filepath.Join(verifDir, "harness/rt", t+".tmpl"))
 		if err != nil {
@@ -359,7 +370,7 @@ func main() {
 		}
 	}
 	if *replay != "" {
-		os.Exit(replayDir(*replay))
+		exit(replayDir(*replay))
 	}
 	t0 := time.Now()
 	var reg Registry
@@ -388,7 +399,7 @@ func main() {
 	if err != nil {
 		fmt.Println("ERROR harness-build:", err)
 		writeEvidenceError(*prop, *tier, seed, ps, "harness-build: "+err.Error(), time.Since(t0).Seconds(), *noEvidence)
-		os.Exit(2)
+		exit(2)
 	}
 	fmt.Printf("loaded+built SSA from %s in %.1fs\n", repoDir, time.Since(t0).Seconds())
 	var results []*HarnessResult
@@ -436,5 +447,5 @@ func main() {
 		}
 	}
 	code := finish(*prop, *tier, seed, ps, l, results, &kf, time.Since(t0).Seconds(), *noReplay, *noEvidence)
-	os.Exit(code)
+	exit(code)
 }
